@@ -113,7 +113,24 @@ func NewRun(property, level string) *Run {
 	return r
 }
 
-func (r *Run) SetDeadline(d time.Duration) { r.Deadline = r.Start.Add(d) }
+// SetDeadline sets the exploration budget (checked by the explorers between units of work; reaching it ends the run
+// with exit 0 and exhaustive=false). It also arms a watchdog far beyond it: every unit of work of every check
+// returns within seconds on a tree where the property holds, so a run that is still inside one unit of work at
+// deadline + max(budget, 6 min) is stuck in a call into the code under test that does not return (unbounded
+// recursion / a loop that never ends). That is reported as a violation instead of hanging the caller forever.
+func (r *Run) SetDeadline(d time.Duration) {
+	r.Deadline = r.Start.Add(d)
+	grace := d
+	if grace < 6*time.Minute {
+		grace = 6 * time.Minute
+	}
+	go func() {
+		time.Sleep(d + grace)
+		r.Report(r.Property+"/watchdog/call-does-not-return", fmt.Sprintf("the run is still inside one unit of work %s after its %s budget ended: a call into the code under test does not return", grace, d), map[string]interface{}{"engine": "watchdog"})
+		r.CapHit("watchdog: run aborted, exploration incomplete")
+		r.Finish()
+	}()
+}
 func (r *Run) Expired() bool {
 	return !r.Deadline.IsZero() && time.Now().After(r.Deadline)
 }
